@@ -5,7 +5,7 @@ From KV Require Import Base.Outcome C13.ModelOps C13.ModelEffects C13.ModelDelay
      C14.SpecLaws C14.ProofsLaws C14.Signals C14.SpecDelay C14.ProofsDelay
      C14.OpsC C14.SpecSVF C14.ProofsSVF C14.ProofsResponse C14.ProofsEQ C14.ProofsFreqResp
      C14.SpecFreeverb C14.ProofsFreeverb C14.SpecCompressor C14.ProofsCompressor C14.ProofsDecay C14.ProofsDelayFx C14.SpecQ
-     C14.ProofsCompSeg C14.ProofsFilterRate.
+     C14.ProofsCompSeg C14.ProofsFilterRate C14.ProofsReverbRate.
 From KV Require C13.Run Base.IEEE.
 From Flocq Require IEEE754.BinarySingleNaN.
 Import ListNotations.
@@ -580,3 +580,40 @@ Theorem filter_coeffs_follow_rate_R :
     0 < fs1 < fs2 -> lit_1e4 <= fc / fs2 -> fc / fs1 < lit_half ->
     filter_at m fc res mix fs1 <> filter_at m fc res mix fs2.
 Proof. exact filter_coeffs_follow_rate. Qed.
+
+(** Reverb after ANY history of device rates (any list of integer rates: repeats, returns to an earlier or to the
+    initial rate included), from any reverb state, for ANY sample operations: [on_change_sample_rate] rebuilds the
+    network on EVERY call, so the state the last change leaves is the empty network whose comb / all-pass lines have
+    the lengths floor(tuning * r / 44100) (at least 1; right channel + 23) for the rate r now in force, and the
+    output from then on is the reference Freeverb network for r. *)
+Theorem reverb_after_rate_history_any :
+  forall (F : Type) (OPS : Ops F) (K : consts F) (fb damp width mix : F)
+         (hist : list (Z * list (frame F))) (s0 : estate F) (r : Z) (xs : list (frame F)),
+    is_reverb_state s0 ->
+    let mk := reverb_at fb damp width mix in
+    let rebuilt := @reverb_new F OPS (fv_sizes r fv_comb_tunings) (fv_sizes r fv_allpass_tunings) in
+    change_rate (mk r) (fst (run_hist K Z mk s0 hist)) = SReverb rebuilt /\
+    map (fun p => (length (snd (fst (fst p))), length (snd (fst (snd p))))) (fst rebuilt) =
+    map (fun n => (Z.to_nat (Z.max 1 (n * r / 44100)), Z.to_nat (Z.max 1 ((n + 23) * r / 44100)))) fv_comb_tunings /\
+    map (fun p => (length (fst (fst p)), length (fst (snd p)))) (snd rebuilt) =
+    map (fun n => (Z.to_nat (Z.max 1 (n * r / 44100)), Z.to_nat (Z.max 1 ((n + 23) * r / 44100)))) fv_allpass_tunings /\
+    snd (run_hist K Z mk s0 (hist ++ [(r, xs)])) =
+    snd (run_hist K Z mk s0 hist) ++
+    freeverb K (fv_sizes r fv_comb_tunings) (fv_sizes r fv_allpass_tunings) fb damp width mix xs.
+Proof. exact reverb_after_rate_history_fv. Qed.
+
+(** What a history is for any effect family [mk] and any operations (the filter / EQ histories above are this with
+    real rates), the reverb compiled for a rate, which states are reverb states ([init] is one). *)
+Theorem rate_history_definitions_any :
+  forall (F : Type) (OPS : Ops F) (K : consts F),
+    (forall (Rate : Type) (mk : Rate -> effect F) s, run_hist K Rate mk s [] = (s, [])) /\
+    (forall (Rate : Type) (mk : Rate -> effect F) s r xs rest,
+        run_hist K Rate mk s ((r, xs) :: rest) =
+        (let (s1, o1) := run_frames (estep K (mk r)) (change_rate (mk r) s) xs in
+         let (s2, o2) := run_hist K Rate mk s1 rest in (s2, o1 ++ o2))) /\
+    (forall (mk : R -> effect R) s hist, run_history mk s hist = run_hist consts_R R mk s hist) /\
+    (forall (fb damp width mix : F) sr,
+        reverb_at fb damp width mix sr = EReverb (fv_sizes sr fv_comb_tunings) (fv_sizes sr fv_allpass_tunings) fb damp width mix) /\
+    (forall (r : @reverb_state F), is_reverb_state (SReverb r)) /\
+    (forall (fb damp width mix : F) sr, is_reverb_state (init (reverb_at fb damp width mix sr))).
+Proof. exact rate_history_definitions. Qed.
